@@ -149,6 +149,7 @@ type ioOp struct {
 	rwHolders   int // replicas listed RW at that moment that hold it
 	attachedN   int
 	coldStarts0 int // cold-start elections seen so far
+	holdersN    int // attached replicas (RW or WO) that had applied it when it was acknowledged
 	// set when a write that was NOT acknowledged is judged (for the D23 classifier)
 	woAppliers []string // replicas that were WO (rebuilding) at that moment and applied it
 }
@@ -456,11 +457,12 @@ func (cr *clRun) exec(i int, op Op) {
 			}
 		}
 	case "diskerr":
-		// the (B+1)-th data-file write (F: read) on replica A fails once: C = 0 EIO, 1 ENOSPC, 2 short write.
+		// the (B+1)-th data-file write (F: read) on replica A fails once: C = 0 EIO, 1 ENOSPC, 2 short write,
+		// 3 = the call stalls for 2-60 simulated seconds and then succeeds (the replica "times out").
 		// The replica answers that request with an error frame and stays alive.
 		rn := cr.rep(op.A)
 		if rn.up && rn.node != nil {
-			kind := []simrt.DiskVerdict{simrt.DiskEIO, simrt.DiskENOSPC, simrt.DiskShort}[int(op.C)%3]
+			kind := []simrt.DiskVerdict{simrt.DiskEIO, simrt.DiskENOSPC, simrt.DiskShort, simrt.DiskSlow}[int(op.C)%4]
 			c.mu.Lock()
 			if c.diskArms == nil {
 				c.diskArms = map[string]*clDiskArm{}
@@ -1132,7 +1134,7 @@ func (cr *clRun) judgeIO(o *ioOp) {
 			}
 			cr.m.ack(o.idx, o.off, o.n, cr.inflight)
 			cr.mutations++
-			o.acked, o.attachedN, o.coldStarts0 = true, len(attached), cr.coldStarts
+			o.acked, o.attachedN, o.coldStarts0, o.holdersN = true, len(attached), cr.coldStarts, na
 			for _, r := range o.list {
 				if r.Mode == types.RW && applied[r.Address] {
 					o.rwHolders++
@@ -1262,6 +1264,10 @@ func (cr *clRun) judgeIO(o *ioOp) {
 				if w := cr.electedHalfRebuilt(bad); w != nil && !strings.Contains(clause, "/") {
 					clause += "/elected-after-interrupted-rebuild"
 					why += cr.d25Note(w)
+				}
+				if w := cr.ackedByMinorityOfRF(bad); w != nil && !strings.Contains(clause, "/") {
+					clause += "/write-held-by-minority-of-rf"
+					why += cr.d26Note(w)
 				}
 				cr.viol("C04", clause, "read %d off=%d len=%d: %s", o.idx, o.off, o.n, why)
 				return
@@ -1396,6 +1402,29 @@ func (cr *clRun) electedHalfRebuilt(s int64) *ioOp {
 		}
 	}
 	return nil
+}
+
+// ackedByMinorityOfRF recognises known finding D26: the acknowledged value of
+// sector s comes from a write that a majority of the replicas ATTACHED at that
+// moment had applied, but no more than half of the configured replication
+// factor (e.g. RF=5 with 3 attached, one of which fails that write: 2 holders),
+// and a cold-start election has happened since. The election needs a majority
+// of RF to register, and such a majority can consist of non-holders only.
+func (cr *clRun) ackedByMinorityOfRF(s int64) *ioOp {
+	if s < 0 || s >= int64(len(cr.m.val)) {
+		return nil
+	}
+	idx := int(cr.m.val[s]>>32) - 1
+	for _, o := range cr.ios {
+		if o.idx == idx && o.acked && o.holdersN*2 <= cr.c.rf && cr.coldStarts > o.coldStarts0 {
+			return o
+		}
+	}
+	return nil
+}
+
+func (cr *clRun) d26Note(w *ioOp) string {
+	return fmt.Sprintf(" [write %d was acknowledged with %d holder(s) among %d attached replicas, RF=%d; a cold start followed]", w.idx, w.holdersN, w.attachedN, cr.c.rf)
 }
 
 func (cr *clRun) d25Note(w *ioOp) string {
@@ -1657,6 +1686,9 @@ func (cr *clRun) settle() {
 				} else if w := cr.electedHalfRebuilt(bad); w != nil {
 					clause += "/elected-after-interrupted-rebuild"
 					why += cr.d25Note(w)
+				} else if w := cr.ackedByMinorityOfRF(bad); w != nil {
+					clause += "/write-held-by-minority-of-rf"
+					why += cr.d26Note(w)
 				}
 				cr.viol("C02", clause, "replica %s is listed RW but its image disagrees with the acknowledged writes: %s", rn.name, why)
 				return
@@ -1784,7 +1816,7 @@ func (clustersim) Generate(rng *Rand, prop, tier string) *Script {
 			add(Op{K: "part", A: r})
 		case x < 80:
 			// a data-file write (or read) on that replica fails: error reply, process stays up
-			add(Op{K: "diskerr", A: r, B: int64(rng.Intn(2)), C: int64(rng.Intn(3)), F: rng.Bool(30)})
+			add(Op{K: "diskerr", A: r, B: int64(rng.Intn(2)), C: int64(rng.Intn(4)), F: rng.Bool(30)})
 			genIO()
 		case x < 88:
 			add(Op{K: "httpfault", A: r, B: int64(rng.Range(1, 3)), F: rng.Bool(60), C: int64(rng.Intn(12))})
@@ -1885,7 +1917,7 @@ func (clustersim) Generate(rng *Rand, prop, tier string) *Script {
 					if rng.Bool(30) {
 						dv = int64(rng.Intn(nreps))
 					}
-					add(Op{K: "diskerr", A: dv, B: 0, C: int64(rng.Intn(3)), F: false})
+					add(Op{K: "diskerr", A: dv, B: 0, C: int64(rng.Intn(4)), F: false})
 				}
 				genIO()
 				if rng.Bool(35) {
